@@ -5,7 +5,7 @@ from pyvc.values import VRef, VBool, VInt, VAny
 from pyvc.state import Unsupported
 from . import packer  # noqa
 
-R.model("Avp", fields={"code": "int", "flags": "int", "payload": "bytes", "name": "str",
+R.model("Avp", fields={"code": "int", "flags": "int", "payload": "bytes", "name": "Opt[str]",
                        "_vendor_id": "int"},
         dynamic={"_avps": "List[Avp]"})
 R.model("AvpInfo", builtin=True, fields={"name": "str", "type": "Any:avpclass", "mandatory": "Opt[bool]",
